@@ -2134,8 +2134,10 @@ def preprocess_file(
             i0 = 0
             out_line = ""
             for match in FRegex.WORD.finditer(line):
-                if match.group(0) in defs:
-                    out_line += line[i0 : match.start(0)] + defs[match.group(0)]
+                def_value = defs.get(match.group(0))
+                # A function-like macro named without arguments is not expanded
+                if isinstance(def_value, str):
+                    out_line += line[i0 : match.start(0)] + def_value
                 else:
                     out_line += line[i0 : match.start(0)] + "False"
                 i0 = match.end(0)
